@@ -59,7 +59,7 @@ def check(pid, c):
 
 m = {
  "version": 1,
- "setup_cmd": "/venv/bin/python /verif/sim/setup_check.py",
+ "setup_cmd": "/venv/bin/python sim/setup_check.py",
  "hooks": {
    "guard": "CEL_PYTHON_VERIF",
    "enable": "no hook is compiled into /repo: the simulator pre-empts through sys.settrace and injects faults through arguments and standard-library seams; checks import /repo/src directly (PYTHONPATH) so they always run the current working tree",
